@@ -35,14 +35,19 @@ Ltac dstep :=
   | |- context [peek ?s ?k] => destruct (peek s k)
   | |- context [forward ?s ?k] => destruct (forward s k)
   | |- context [scan_line_break ?s] => destruct (scan_line_break s) as [[? ?]|?]
+  | |- context [scan_flow_scalar_breaks ?s] => destruct (scan_flow_scalar_breaks s) as [[? ?]|?]
+  | |- context [hex_check ?n ?l] => destruct (hex_check n l) as [[|]|?]
+  | |- context [int16 ?l] => destruct (int16 l)
+  | |- context [py_chr ?c] => destruct (py_chr c)
+  | |- context [digit_val ?c] => destruct (digit_val c)
+  | |- context [assoc ?c ?t] => destruct (assoc c t)
   | |- context [is_nil ?l] => destruct l
   | |- context [nonempty ?l] => destruct l
   | |- context [match ?l with [] => _ | _ :: _ => _ end] => destruct l
-  | |- context [if ?c then _ else _] => destruct c
   | |- context [match ?o with Some _ => _ | None => _ end] => destruct o
+  | |- context [if ?c then _ else _] => destruct c
   | |- context [match ?o with Ok _ => _ | Raise _ => _ end] => destruct o
   | |- context [let '(_, _) := ?p in _] => destruct p
-  | |- context [bind ?r _] => destruct r as [?|?]
   end.
 Ltac dsteps := repeat first [ progress cbn [bind fst snd] | progress autorewrite with src | dstep ].
 
@@ -305,7 +310,11 @@ Proof.
       cbn [negb bind]; [apply IH | reflexivity].
   - apply nth_error_None in E. rewrite skipn_all2 by lia. reflexivity.
 Qed.
-#[export] Hint Rewrite flow_ns_f3_eq : src.
+Lemma flow_ns_f3_eq0 n s len :
+  scan_flow_scalar_non_spaces_src_f3 n 0 s len =
+  do b <- hex_check n (s_rest s); if negb b then Raise (TokenizeError (s_idx s)) else Ok tt.
+Proof. apply flow_ns_f3_eq. Qed.
+#[export] Hint Rewrite flow_ns_f3_eq0 : src.
 
 Lemma flow_ns_w1_eq : forall f s ch d,
   scan_flow_scalar_non_spaces_src_w1 f s ch d = do r <- flow_non_spaces_f f s d ch; Ok (Done r).
@@ -325,5 +334,160 @@ Proof.
   destruct H as (s1 & c1 & [(E1 & Ec & E2) | (e & E1 & E2)]); rewrite E2, E1; cbn [bind]; [|reflexivity].
   rewrite <- Ec. clear E1 E2 Ec.
   unfold flow_ns_branch, scan_escape, CHR_GUARD. unfold_tabs.
-  ssteps IH. Show. admit.
-Admitted.
+  ssteps IH.
+Qed.
+
+Lemma scan_flow_scalar_non_spaces_src_eq s d :
+  scan_flow_scalar_non_spaces_src s d = scan_flow_scalar_non_spaces s d.
+Proof.
+  unfold scan_flow_scalar_non_spaces_src, scan_flow_scalar_non_spaces. rewrite flow_ns_w1_eq.
+  destruct (flow_non_spaces_f (fuel_of s) s d []) as [[s1 c]|e]; reflexivity.
+Qed.
+#[export] Hint Rewrite scan_flow_scalar_non_spaces_src_eq : src.
+
+(* ------------------------------------------------------------------ block scalar leaf scanners *)
+
+Lemma scan_block_scalar_indicators_src_eq s :
+  scan_block_scalar_indicators_src s = scan_block_scalar_indicators s.
+Proof.
+  unfold scan_block_scalar_indicators_src, scan_block_scalar_indicators. unfold_tabs. dsteps.
+Qed.
+#[export] Hint Rewrite scan_block_scalar_indicators_src_eq : src.
+
+Lemma ignored_w1_eq f s : scan_block_scalar_ignored_line_src_w1 f s = skip_while_f f (fun ch => ch =? c_space) s.
+Proof. apply (skip_loop_spec _ scan_block_scalar_ignored_line_src_w1). intros [|f'] s'; reflexivity. Qed.
+
+Lemma ignored_w2_eq f s :
+  scan_block_scalar_ignored_line_src_w2 f s =
+  skip_while_f f (fun ch => negb (mem_N ch in_scan_block_scalar_ignored_line_0)) s.
+Proof. apply (skip_loop_spec _ scan_block_scalar_ignored_line_src_w2). intros [|f'] s'; reflexivity. Qed.
+
+Lemma scan_block_scalar_ignored_line_src_eq s :
+  scan_block_scalar_ignored_line_src s = scan_block_scalar_ignored_line s.
+Proof.
+  unfold scan_block_scalar_ignored_line_src, scan_block_scalar_ignored_line. rewrite ignored_w1_eq.
+  fold (skip_while (fun ch => ch =? c_space) s).
+  destruct (skip_while (fun ch => ch =? c_space) s) as [s1|e]; cbn [bind]; [|reflexivity].
+  destruct (peek s1 0) as [c|e]; cbn [bind]; [|reflexivity]. change (c =? 35) with (c =? c_hash).
+  destruct (c =? c_hash).
+  - rewrite ignored_w2_eq. fold (skip_while (fun ch => negb (mem_N ch in_scan_block_scalar_ignored_line_0)) s1).
+    destruct (skip_while (fun ch => negb (mem_N ch in_scan_block_scalar_ignored_line_0)) s1) as [s2|e]; cbn [bind]; [|reflexivity].
+    unfold_tabs. dsteps.
+  - unfold_tabs. dsteps.
+Qed.
+#[export] Hint Rewrite scan_block_scalar_ignored_line_src_eq : src.
+
+Lemma block_indentation_w1_eq : forall f s m ch,
+  scan_block_scalar_indentation_src_w1 f s m ch = block_indentation_f f s ch m.
+Proof.
+  induction f as [|f IH]; intros s m ch; [reflexivity|].
+  cbn [scan_block_scalar_indentation_src_w1 block_indentation_f]. unfold_tabs. ssteps IH.
+Qed.
+
+Lemma scan_block_scalar_indentation_src_eq s :
+  scan_block_scalar_indentation_src s = scan_block_scalar_indentation s.
+Proof.
+  unfold scan_block_scalar_indentation_src, scan_block_scalar_indentation. rewrite block_indentation_w1_eq.
+  destruct (block_indentation_f (fuel_of s) s [] 0) as [[[s1 c] m]|e]; reflexivity.
+Qed.
+#[export] Hint Rewrite scan_block_scalar_indentation_src_eq : src.
+
+Lemma block_breaks_w1_eq : forall f s i, scan_block_scalar_breaks_src_w1 f s i = skip_indent_f f i s.
+Proof.
+  induction f as [|f IH]; intros s i; [reflexivity|].
+  cbn [scan_block_scalar_breaks_src_w1 skip_indent_f]. unfold_tabs. ssteps IH.
+Qed.
+
+Lemma block_breaks_w3_eq : forall f s i, scan_block_scalar_breaks_src_w3 f s i = skip_indent_f f i s.
+Proof.
+  induction f as [|f IH]; intros s i; [reflexivity|].
+  cbn [scan_block_scalar_breaks_src_w3 skip_indent_f]. unfold_tabs. ssteps IH.
+Qed.
+
+Lemma block_breaks_w2_eq : forall f s ch i, scan_block_scalar_breaks_src_w2 f s ch i = block_breaks_f f i s ch.
+Proof.
+  induction f as [|f IH]; intros s ch i; [reflexivity|].
+  cbn [scan_block_scalar_breaks_src_w2 block_breaks_f]. unfold_tabs.
+  destruct (peek s 0) as [c|e]; cbn [bind]; [|reflexivity].
+  destruct (mem_N c [13; 10; 133; 8232; 8233]); [|reflexivity].
+  rewrite scan_line_break_src_eq. destruct (scan_line_break s) as [[s1 lb]|e]; cbn [bind]; [|reflexivity].
+  rewrite block_breaks_w3_eq. fold (skip_indent i s1).
+  destruct (skip_indent i s1) as [s2|e]; cbn [bind]; [apply IH | reflexivity].
+Qed.
+
+Lemma scan_block_scalar_breaks_src_eq s i : scan_block_scalar_breaks_src s i = scan_block_scalar_breaks s i.
+Proof.
+  unfold scan_block_scalar_breaks_src, scan_block_scalar_breaks. rewrite block_breaks_w1_eq.
+  fold (skip_indent i s). destruct (skip_indent i s) as [s1|e]; cbn [bind]; [|reflexivity].
+  rewrite block_breaks_w2_eq. destruct (block_breaks_f (fuel_of s1) i s1 []) as [[s2 c]|e]; reflexivity.
+Qed.
+#[export] Hint Rewrite scan_block_scalar_breaks_src_eq : src.
+
+(* ------------------------------------------------------------------ _scan_plain_scalar *)
+
+Lemma nth_error_skipn {A} : forall (l : list A) k, nth_error l k = hd_error (skipn k l).
+Proof. induction l as [|x l IHl]; intros [|k]; cbn; auto. Qed.
+
+Lemma skipn_S_cons {A} (l : list A) k c l' : skipn k l = c :: l' -> skipn (S k) l = l'.
+Proof.
+  revert k. induction l as [|x l IHl]; intros [|k] E; cbn in *; try discriminate.
+  - inversion E. reflexivity.
+  - apply IHl in E. exact E.
+Qed.
+
+Lemma plain_w2_spec : forall f s k b, (1 <= f)%nat -> (length (s_rest s) < f + k)%nat ->
+  scan_plain_scalar_src_w2 f s k b = do n <- plain_len b (skipn k (s_rest s)); Ok (k + n)%nat.
+Proof.
+  induction f as [|f IH]; intros s k b H1 Hf.
+  - lia.
+  - cbn [scan_plain_scalar_src_w2]. unfold peek. rewrite !nth_error_skipn.
+    replace (k + 1)%nat with (S k) by lia.
+    destruct (skipn k (s_rest s)) as [|c l'] eqn:E; [reflexivity|].
+    rewrite (skipn_S_cons _ _ _ _ E). cbn [hd_error bind plain_len]. unfold_tabs.
+    destruct (mem_N c [0; 32; 9; 13; 10; 133; 8232; 8233]); cbn [bind]; [f_equal; lia|].
+    assert (Hl : (k < length (s_rest s))%nat).
+    { assert (H : length (skipn k (s_rest s)) = S (length l')) by (rewrite E; reflexivity).
+      rewrite skipn_length in H. lia. }
+    assert (Hrec : scan_plain_scalar_src_w2 f s (S k) b = do n <- plain_len b l'; Ok (k + S n)%nat).
+    { rewrite IH by lia. rewrite (skipn_S_cons _ _ _ _ E).
+      destruct (plain_len b l'); cbn [bind]; [f_equal; lia | reflexivity]. }
+    destruct (b && (c =? 58)).
+    + destruct l' as [|n l'']; cbn [hd_error bind]; [reflexivity|].
+      destruct (mem_N n [0; 32; 9; 13; 10; 133; 8232; 8233]); cbn [bind]; [f_equal; lia|].
+      rewrite Hrec. destruct (plain_len b (n :: l'')); reflexivity.
+    + cbn [bind]. rewrite Hrec. destruct (plain_len b l'); reflexivity.
+Qed.
+
+Lemma plain_w2_0 s b : scan_plain_scalar_src_w2 (fuel_of s) s O b = plain_len b (s_rest s).
+Proof.
+  rewrite plain_w2_spec by (unfold fuel_of; lia). cbn [skipn].
+  destruct (plain_len b (s_rest s)); reflexivity.
+Qed.
+
+(* the generated loop also returns `spaces`, which the caller drops *)
+Lemma plain_w1_eq : forall f s b sp ch,
+  (do x <- scan_plain_scalar_src_w1 f s b sp ch (if b then 0 else 1); let '(st, _, c) := x in Ok (st, c)) =
+  plain_scalar_f f b s ch sp.
+Proof.
+  induction f as [|f IH]; intros s b sp ch; [reflexivity|].
+  cbn [scan_plain_scalar_src_w1 plain_scalar_f]. cbv zeta. rewrite plain_w2_0. unfold_tabs.
+  destruct (peek s 0) as [c|e]; cbn [bind]; [|reflexivity].
+  destruct (c =? 35); [reflexivity|].
+  destruct (plain_len b (s_rest s)) as [[|k]|e]; cbn [bind Nat.eqb]; [reflexivity | | reflexivity].
+  rewrite <- (app_assoc ch sp).
+  destruct (forward s (S k)) as [s1|e]; cbn [bind]; [|reflexivity].
+  rewrite scan_plain_spaces_src_eq.
+  destruct (scan_plain_spaces s1 (negb b)) as [[s2 sp']|e]; cbn [bind]; [|reflexivity].
+  destruct sp' as [|x sp']; cbn [is_nil negb bind].
+  - cbn [orb]. destruct (peek s2 0) as [c2|e]; cbn [bind]; [|reflexivity]. destruct (c2 =? 35); reflexivity.
+  - destruct (peek s2 0) as [c2|e]; cbn [bind]; [|reflexivity].
+    destruct ((c2 =? 35) || (s_col s2 <? (if b then 0 else 1))); cbn [bind]; [destruct (c2 =? 35); reflexivity|].
+    apply IH.
+Qed.
+
+Lemma scan_plain_scalar_src_eq s b : scan_plain_scalar_src s b = scan_plain_scalar s b.
+Proof.
+  unfold scan_plain_scalar_src, scan_plain_scalar. cbv zeta. rewrite <- plain_w1_eq.
+  destruct (scan_plain_scalar_src_w1 (fuel_of s) s b [] [] (if b then 0 else 1)) as [[[s1 sp] c]|e]; reflexivity.
+Qed.
+#[export] Hint Rewrite scan_plain_scalar_src_eq : src.
